@@ -58,6 +58,9 @@ class C08(conncheck.ConnCheck):
                         'app': ['close', 'close-3001', 'send_binary'], 'depth': None, 'max_dev': 3})
             out.append({'name': 't/no-autopong', 'server': SERVER, 'handshake': ['hs-ok'], 'app': ['close', 'send_pong'],
                         'depth': None, 'max_dev': 2, 'auto_pong': False})
+        for app in APPS:
+            out.append({'name': 'tls/%s' % app, 'url': 'wss://example.com/x', 'server': SERVER, 'handshake': ['hs-ok', 'hs-deflate'], 'app': [app],
+                        'depth': None if tier == 'thorough' else 3, 'max_dev': 1})
         return out
 
 
